@@ -1098,6 +1098,9 @@ class Interp:
         if type(obj).__name__ == 'SStr':
             from . import sstr
             if isinstance(idx, slice):
+                if isinstance(idx.start, Sym) and idx.stop is None and \
+                        idx.step is None:
+                    return sstr.slice_sym(obj, idx.start, self)
                 sl = self._slice(idx, 0)
                 if sl.step not in (None, 1):
                     raise Unsupported('extended slice of structured string')
